@@ -1094,24 +1094,35 @@ def r17_flatten_options(toks, counts):
 
 
 def r19_box_as_mut(toks, counts):
-    """`X.as_mut()` -> `&mut *X` for a simple identifier X holding a Box (opt-in; the definition of Box::as_mut)"""
+    """`X.as_mut()` -> `&mut *X` for an identifier X holding a Box, `E.as_mut()` -> `&mut *(E)` for a postfix expression E such as
+    `self.storage.txn()?` (opt-in; the definition of Box::as_mut)"""
     out = []
     i = 0
     n = len(toks)
     while i < n:
         t = toks[i]
-        if t[0] == 'id':
-            a = next_sig(toks, i + 1)
-            b = next_sig(toks, a + 1) if a < n else n
+        if is_p(t, '.'):
+            b = next_sig(toks, i + 1)
             c = next_sig(toks, b + 1) if b < n else n
             d = next_sig(toks, c + 1) if c < n else n
-            p = prev_sig(toks, i - 1)
-            if d < n and is_p(toks[a], '.') and is_id(toks[b], 'as_mut') and is_p(toks[c], '(') and is_p(toks[d], ')') \
-                    and not (p >= 0 and is_p(toks[p], '.')):
-                out += [('p', '&'), ('id', 'mut'), ('ws', ' '), ('p', '*'), t]
-                counts['R19'] = counts.get('R19', 0) + 1
-                i = d + 1
-                continue
+            if d < n and is_id(toks[b], 'as_mut') and is_p(toks[c], '(') and is_p(toks[d], ')'):
+                try:
+                    start = _postfix_start(out, len(out) - 1)
+                except ExtractError:
+                    start = None
+                if start is not None:
+                    recv = out[start:]
+                    while recv and recv[-1][0] == 'ws':
+                        recv.pop()
+                    del out[start:]
+                    sig = [x for x in recv if x[0] not in TRIVIA]
+                    if len(sig) == 1:
+                        out += [('p', '&'), ('id', 'mut'), ('ws', ' '), ('p', '*')] + recv
+                    else:
+                        out += [('p', '&'), ('id', 'mut'), ('ws', ' '), ('p', '*'), ('p', '(')] + recv + [('p', ')')]
+                    counts['R19'] = counts.get('R19', 0) + 1
+                    i = d + 1
+                    continue
         out.append(t)
         i += 1
     return out
@@ -2199,6 +2210,16 @@ def _indent_of_line_containing(out, start):
 
 
 def r26_iter_chains(toks, counts):
+    # to a fixpoint: a chain inside the closure of another chain is rewritten in the next round
+    for _round in range(6):
+        before = counts.get('R26', 0)
+        toks = _r26_iter_chains_once(toks, counts, before)
+        if counts.get('R26', 0) == before:
+            break
+    return toks
+
+
+def _r26_iter_chains_once(toks, counts, serial0=0):
     """`E.iter().filter(|P| C).map(|Q| F).collect()` -- sources `.iter()`, `.into_iter()`, `.keys()`, `.values()` or a drain stand-in call
     (`drain_all(..)`, `drain_map(..)`, `drain_hashmap(..)`, rule R5); adapters filter, map, filter_map, copied, cloned; terminals
     collect, count, for_each -- becomes a block with an explicit loop:
@@ -2210,7 +2231,7 @@ def r26_iter_chains(toks, counts):
     out = []
     i = 0
     n = len(toks)
-    serial = 0
+    serial = serial0
     while i < n:
         t = toks[i]
         done = False
@@ -2762,6 +2783,98 @@ def inline_helpers(item, src_toks, names, counts):
     return item
 
 
+def r11_closure_pattern_params(toks, counts):
+    """`|(a, b)| E` / `|&x| E` / `|S { f, .. }| E` (a closure whose parameter is a pattern, which Verus does not accept) ->
+    `|r11_k| { let (a, b) = r11_k; E }` -- the definition of an irrefutable parameter pattern.  Closures with several parameters are
+    rewritten parameter by parameter; identifier parameters (optionally `mut`, optionally typed) are left alone."""
+    out = []
+    i = 0
+    n = len(toks)
+    serial = 0
+    STARTERS = ('=', '(', ',', '{', ';')
+    while i < n:
+        t = toks[i]
+        is_start = False
+        if is_p(t, '|'):
+            p = prev_sig(toks, i - 1)
+            if p >= 0 and ((toks[p][0] == 'p' and toks[p][1] in STARTERS) or is_id(toks[p], 'move') or is_id(toks[p], 'return')):
+                is_start = True
+        if not is_start:
+            out.append(t)
+            i += 1
+            continue
+        j = i + 1
+        while j < n and not is_p(toks[j], '|'):
+            if toks[j][0] == 'p' and toks[j][1] in '([':
+                j = match_close(toks, j)
+            j += 1
+        if j >= n:
+            out.append(t)
+            i += 1
+            continue
+        params = toks[i + 1:j]
+        parts, cur, q = [], [], 0
+        while q < len(params):
+            x = params[q]
+            if x[0] == 'p' and x[1] in '([{':
+                c = match_close(params, q)
+                cur += params[q:c + 1]
+                q = c + 1
+                continue
+            if is_p(x, ','):
+                parts.append(cur)
+                cur = []
+            else:
+                cur.append(x)
+            q += 1
+        if [y for y in cur if y[0] not in TRIVIA]:
+            parts.append(cur)
+
+        def simple(part):
+            sig = [y for y in part if y[0] not in TRIVIA]
+            if sig and is_id(sig[0], 'mut'):
+                sig = sig[1:]
+            if not sig or sig[0][0] != 'id':
+                return False
+            return len(sig) == 1 or (is_p(sig[1], ':') and not (len(sig) > 2 and is_p(sig[2], ':')))
+        if all(simple(pt) for pt in parts) or not parts:
+            out.append(t)
+            i += 1
+            continue
+        b = next_sig(toks, j + 1)
+        if b + 1 < n and is_p(toks[b], '-') and is_p(toks[b + 1], '>'):
+            out.append(t)      # declared return type: leave it
+            i += 1
+            continue
+        names, lets = [], []
+        for pt in parts:
+            if simple(pt):
+                names.append(_flat(pt))
+            else:
+                serial += 1
+                nm = 'r11_%d' % serial
+                names.append(nm)
+                lets.append('let %s = %s;' % (_flat(pt), nm))
+        if is_p(toks[b], '{'):
+            c = match_close(toks, b)
+            body = toks[b + 1:c]
+            end = c
+        else:
+            e = b
+            while e < n and not (toks[e][0] == 'p' and toks[e][1] in ',;)]}'):
+                if toks[e][0] == 'p' and toks[e][1] in rtok.OPEN:
+                    e = match_close(toks, e)
+                e += 1
+            body = toks[b:e]
+            while body and body[-1][0] == 'ws':
+                body.pop()
+            end = b + len(body) - 1
+        out += rtok.tokenize('|%s| { %s ' % (', '.join(names), ' '.join(lets))) + body + [('ws', ' '), ('p', '}')]
+        counts['R11'] = counts.get('R11', 0) + 1
+        i = end + 1
+    return out
+
+
 def cleanup_lines(text):
     lines = [l.rstrip() for l in text.split('\n')]
     return [l for l in lines if l.strip() != '']
@@ -2830,6 +2943,7 @@ def extract_region(src_text, path, opts=None):
             item = r31_slice_empty_match(item, counts)
             if 'R29' not in opts.get('skip', ()):
                 item = r29_inline_combinators(item, counts, extra=(('map',) if 'R29map' in opts.get('rules', ()) else ()) + (('result',) if 'R29res' in opts.get('rules', ()) else ()))
+            item = r11_closure_pattern_params(item, counts)
             if 'R28' in opts.get('rules', ()):
                 item = r28_closure_signatures(item, counts, opts.get('r28_sigs', []))
             item = r21_map_err_anyhow(item, counts)
